@@ -467,7 +467,12 @@ namespace _ST_PRIVATE
                 *dest++ = badchar_substitute;
             } else {
                 error = write_utf16(dest, bigch);
-                ST_ASSERT(error == conversion_error_t::success, "Input character out of range");
+                if (error != conversion_error_t::success) {
+                    // 4-byte sequences can encode values above U+10FFFF
+                    if (validation == ST::check_validity)
+                        return error;
+                    *dest++ = badchar_substitute;
+                }
             }
         }
 
